@@ -9,6 +9,7 @@ continue_training(), every param group's lr, get_info rows and the CSV text; the
 """
 import contextlib
 import itertools
+import re
 import os
 import shutil
 import tempfile
@@ -23,37 +24,62 @@ TMP_ROOT = "/dev/shm" if os.path.isdir("/dev/shm") and os.access("/dev/shm", os.
 
 
 # ------------------------------------------------------------------------- real code
-def make_params(p):
+TYPES = {"int": int, "str": str, "float": float}
+
+
+def make_params(p, ckpt="default"):
     from pydrobert.torch.training import TrainingStateParams
+    kw = {}
+    if ckpt == "keep_all":
+        kw["keep_last_and_best_only"] = False
+    elif ckpt == "fixed_names":
+        # every epoch overwrites the same two files: the history row is written BEFORE the files
+        kw.update(keep_last_and_best_only=False, saved_model_fmt="model.pt", saved_optimizer_fmt="optim.pt")
     return TrainingStateParams(
         num_epochs=p["num_epochs"], log10_learning_rate=p["log10_lr"],
         early_stopping_threshold=p["es_thr"], early_stopping_patience=p["es_pat"],
         early_stopping_burnin=p["es_burn"], reduce_lr_threshold=p["rlr_thr"],
         reduce_lr_factor=p["rlr_factor"], reduce_lr_patience=p["rlr_pat"],
         reduce_lr_cooldown=p["rlr_cool"], reduce_lr_burnin=p["rlr_burn"],
-        reduce_lr_log10_epsilon=p["log10_eps"])
+        reduce_lr_log10_epsilon=p["log10_eps"], **kw)
 
 
 class Session:
-    """One controller + model + optimizer bound to (csv, state_dir)."""
+    """One controller + model + optimizer bound to (csv, state_dir).
 
-    def __init__(self, case, csv_path, state_dir):
+    `fresh`: the very first process of the experiment (the optimizer is built with the case's rates;
+    `load_model_and_optimizer_for_epoch` is called unless the case says `load0: false`).  Otherwise a
+    process that resumes: the optimizer is built with `restart_opt_lr` (any rate: the saved state must
+    overwrite it) and the last epoch is loaded, with the epoch given explicitly if `load_explicit`."""
+
+    def __init__(self, case, csv_path, state_dir, fresh=True):
         import torch
         from pydrobert.torch.training import TrainingStateController
         self.torch = torch
         ws = [torch.nn.Parameter(torch.zeros(1)) for _ in case["groups"]]
         self.model = torch.nn.ParameterList(ws)
         groups = []
+        other = None if fresh else case.get("restart_opt_lr")
         for w, g in zip(ws, case["groups"]):
             d = {"params": [w]}
-            if g is not None:
+            if other is not None:
+                d["lr"] = other * 3
+            elif g is not None:
                 d["lr"] = g
             groups.append(d)
-        self.opt = torch.optim.SGD(groups, lr=case["opt_lr"])
-        self.ctl = TrainingStateController(make_params(case["params"]), csv_path, state_dir)
+        self.opt = torch.optim.SGD(groups, lr=case["opt_lr"] if other is None else other)
+        ckpt = case.get("ckpt", "default")
+        self.ctl = TrainingStateController(make_params(case["params"], ckpt), csv_path, state_dir,
+                                           warn=(ckpt != "fixed_names"))
         for name, typ, fmt in case.get("entries", []):
-            self.ctl.add_entry(name, {"int": int, "str": str, "float": float}[typ], fmt)
-        self.ctl.load_model_and_optimizer_for_epoch(self.model, self.opt)
+            self.ctl.add_entry(name, TYPES[typ], fmt)
+        if fresh:
+            if case.get("load0", True):
+                self.ctl.load_model_and_optimizer_for_epoch(self.model, self.opt)
+        elif case.get("load_explicit"):
+            self.ctl.load_model_and_optimizer_for_epoch(self.model, self.opt, self.ctl.get_last_epoch())
+        else:
+            self.ctl.load_model_and_optimizer_for_epoch(self.model, self.opt)
 
     def lrs(self):
         return [frac_str(g["lr"]) for g in self.opt.param_groups]
@@ -71,41 +97,96 @@ def canon_row(info):
     return out
 
 
+def canon_entry(v):
+    """user entry -> [type name, exact value]"""
+    if isinstance(v, float):
+        return ["float", frac_str(v)]
+    return [type(v).__name__, v]
+
+
 def read_csv(path):
-    if not os.path.exists(path):
+    """the history file as a list of records, split by the rules of the csv format written out here
+    (NOT with the csv module, which is part of what is being checked): fields separated by commas,
+    records by CRLF/LF, a field in double quotes may contain commas, line breaks and doubled quotes"""
+    if path is None or not os.path.exists(path):
         return []
     with open(path, newline="") as f:
         text = f.read()
-    return [ln.split(",") for ln in text.replace("\r\n", "\n").split("\n") if ln != ""]
+    recs, rec, cur, i, n, quoted = [], [], [], 0, len(text), False
+    while i < n:
+        c = text[i]
+        if quoted:
+            if c == '"':
+                if i + 1 < n and text[i + 1] == '"':
+                    cur.append('"'); i += 2; continue
+                quoted = False
+            else:
+                cur.append(c)
+        elif c == '"' and not cur:
+            quoted = True
+        elif c == ",":
+            rec.append("".join(cur)); cur = []
+        elif c == "\n" or (c == "\r" and i + 1 < n and text[i + 1] == "\n"):
+            if c == "\r":
+                i += 1
+            rec.append("".join(cur)); cur = []
+            recs.append(rec); rec = []
+        else:
+            cur.append(c)
+        i += 1
+    if cur or rec:
+        rec.append("".join(cur)); recs.append(rec)
+    return recs
 
 
-def run_real(case, restarts):
-    """-> observation of one run, restarting after each epoch in `restarts`."""
+def run_real(case, restarts, mode="new"):
+    """-> observation of one run, restarting after each epoch in `restarts`.
+
+    mode "new": a new process (new controller, model, optimizer; the last epoch is loaded from the
+    state directory); mode "cache": the same controller re-reads the history file (`update_cache()`)."""
     d = tempfile.mkdtemp(prefix="c15_", dir=TMP_ROOT)
     try:
-        csv_path = os.path.join(d, "hist.csv")
+        csv_path = os.path.join(d, "hist.csv") if case.get("csv", True) else None
         state_dir = os.path.join(d, "states") if case.get("state_dir", True) else None
         s = Session(case, csv_path, state_dir)
-        obs = {"cont": [], "cont_training": [], "lrs": [], "error": None}
+        obs = {"cont": [], "cont_training": [], "lrs": [], "error": None,
+               "cont0": bool(s.ctl.continue_training()), "lrs0": s.lrs()}
         rs = set(restarts)
+        bit = case.get("best_is_train") or []
+        exp = case.get("explicit_epoch") or []
+        ents = case.get("entries", [])
         for e, (tr, va) in enumerate(case["metrics"], 1):
             kw = {}
-            for (name, typ, fmt), vals in zip(case.get("entries", []), case.get("entry_values", [])):
+            for (name, typ, fmt), vals in zip(ents, case.get("entry_values", [])):
                 kw[name] = vals[e - 1]
+            if e <= len(exp) and exp[e - 1]:
+                kw["epoch"] = e          # the epoch that just finished, given explicitly
+            if e <= len(bit) and bit[e - 1]:
+                kw["best_is_train"] = True
             cont = s.ctl.update_for_epoch(s.model, s.opt, tr, va, **kw)
             if not isinstance(cont, bool):
                 raise TypeError(f"update_for_epoch returned {type(cont).__name__}")
             if e in rs:
-                s = Session(case, csv_path, state_dir)
+                if mode == "cache":
+                    s.ctl.update_cache()
+                else:
+                    s = Session(case, csv_path, state_dir, fresh=False)
             obs["cont"].append(cont)
             obs["cont_training"].append(bool(s.ctl.continue_training()))
             obs["lrs"].append(s.lrs())
         n = len(case["metrics"])
         obs["rows"] = [canon_row(s.ctl.get_info(e)) for e in range(1, n + 1)]
+        obs["row0"] = canon_row(s.ctl[0])
+        obs["cont_at"] = [bool(s.ctl.continue_training(e)) for e in range(0, n + 1)]
         obs["last_epoch"] = s.ctl.get_last_epoch()
         obs["csv"] = read_csv(csv_path)
-        if case.get("entries"):
-            obs["entries"] = [[s.ctl[e][name] for (name, _, _) in case["entries"]] for e in range(1, n + 1)]
+        obs["csv_text"] = None
+        if csv_path is not None and os.path.exists(csv_path):
+            with open(csv_path, newline="", encoding="utf-8") as f:
+                obs["csv_text"] = f.read()
+        if ents:
+            obs["entries"] = [[canon_entry(s.ctl[e][name]) for (name, _, _) in ents] for e in range(1, n + 1)]
+            obs["entries0"] = [s.ctl[0].get(name, "missing") for (name, _, _) in ents]
         return obs
     finally:
         shutil.rmtree(d, ignore_errors=True)
@@ -130,51 +211,150 @@ def all_subsets(n):
                 yield list(c)
 
 
+ENTRY_POOL = [("count", "int", "{}"), ("pad", "int", "{:05d}"), ("note", "str", "{}"), ("ratio", "float", "{}"),
+              ("ratio_r", "float", "{!r}"), ("tag", "str", "{:s}"), ("big", "int", "{:d}"), ("n_r", "int", "{!r}"),
+              ("sci3", "float", "{:.2e}"), ("sci17", "float", "{:.16e}"), ("a,b", "str", "{}"), ("wide", "int", "{:012d}")]
+# strings: separators, quotes, both kinds of line end (alone and combined), leading/trailing blanks, look-alikes
+ENTRY_ALPHABET = ["a", "B", " ", ",", '"', "'", ";", "é", "0", "-", "\t", "x,y", '""', "epoch", "\n", "1e3", "",
+                  "\r", "\r\n", "\n\r", '"\r"', "inf", "None"]
+LOSSY = {"{:.2e}"}
+
+
+def reread(typ, fmt, v):
+    """the value a faithful history file hands back: typ(fmt.format(v))"""
+    return TYPES[typ](fmt.format(v))
+
+
+def entry_values(rng, typ, n):
+    out = []
+    for _ in range(n):
+        if typ == "int":
+            out.append(rng.choice((0, 1, -1, 7, 10, 99999, -12345, rng.randrange(-10 ** 12, 10 ** 12))))
+        elif typ == "float":
+            out.append(rng.choice((0.0, 1.5, -2.25, 0.1, 1e-30, 3.141592653589793, 1e16, 123456789.125, 5e-05,
+                                   rng.random(), rng.uniform(-1e6, 1e6))))
+        else:
+            out.append("".join(rng.choice(ENTRY_ALPHABET) for _ in range(rng.randrange(0, 5))))
+    return out
+
+
+def add_entries(rng, c, k, pool=ENTRY_POOL):
+    n = len(c["metrics"])
+    ents = rng.sample(pool, k)
+    c["entries"] = [list(e) for e in ents]
+    c["entry_values"] = [entry_values(rng, t, n) for (_, t, _) in ents]
+    return c
+
+
+def fmt_code(fmt, typ):
+    """Python format string -> the model's format code, or None if it is not modelled"""
+    if fmt == "{}":
+        return {"k": "plain", "n": 0}
+    if fmt == "{:d}" and typ == "int":
+        return {"k": "dec", "n": 0}
+    m = re.fullmatch(r"\{:0(\d+)d\}", fmt)
+    if m and typ == "int":
+        return {"k": "dec", "n": int(m.group(1))}
+    m = re.fullmatch(r"\{:\.(\d+)e\}", fmt)
+    if m and typ == "float":
+        return {"k": "sci", "n": int(m.group(1)) + 1}
+    if fmt == "{:s}" and typ == "str":
+        return {"k": "s", "n": 0}
+    if fmt == "{!r}" and typ in ("int", "float"):
+        return {"k": "r", "n": 0}
+    return None
+
+
+def entries_modelled(case):
+    ents = case.get("entries") or []
+    return bool(ents) and all(fmt_code(f, t) is not None for (_, t, f) in ents)
+
+
 class C15(PropertyCheck):
     pid = "C15"
     title = "Training control decisions follow the stated rules and survive restarts"
     rule = ("a case = one parameter setting (patience/burn-in/cool-down/threshold/factor/epsilon/num_epochs/"
-            "initial rates, 1-2 optimizer groups) + one (train,val) sequence + a list of restart subsets; streams: "
+            "log10_learning_rate) + an optimizer with 1-3 param groups (each with the default or its own rate), loaded "
+            "or NOT loaded at epoch 0 (rates not synchronised with log10_learning_rate) + one (train,val) sequence + "
+            "per-call options (explicit `epoch=`, `best_is_train`) + checkpoint options (keep last/best, keep all, "
+            "fixed file names), history file or none + 0-2 user entries (int/float/str) + a list of restart subsets, "
+            "each either 'new process' (new controller/model/optimizer built with another rate, last epoch loaded "
+            "implicitly or with an explicit epoch) or 'update_cache()' on the same controller; streams: "
             "dyadic (all float ops exact), decimal (two-decimal grid, decimal thresholds/factors, binary64 rounding "
             "modelled exactly), offgrid (metrics not representable at the printed precision: correspondence only for "
-            "the restart clause). Exhaustive blocks: every val sequence of length 4 (quick; 16 settings) / 5 (thorough; 32 settings) over 3 levels; "
+            "the restart clause), epsilon (rate change at or next to 10**reduce_lr_log10_epsilon), wide (patience/"
+            "burn-in/cool-down >= 10: two-digit columns), entries (1-3 user entries of every modelled type/format: "
+            "int '{}' '{:d}' '{:0wd}' '{!r}', float '{}' '{!r}' '{:.ke}', str '{}' '{:s}'; strings with commas, quotes, "
+            "carriage returns, line feeds; the whole file is compared byte for byte with the model's text and the "
+            "entries returned after restarts with the model's character-level re-read). Validation walks: plateau/improve/noisy/const/diverge. "
+            "Exhaustive blocks: every val sequence of length 4 (quick; 16 settings) / 5 (thorough; 32 settings) over "
+            "3 levels, cycling through the option variants; "
             "every non-empty restart subset for sequences of length <= 5 (quick) / <= 8 (thorough). "
             "non-trivial: >= 1 reset after a failure and >= 1 countdown reaching 0 (early stop or rate criterion fired); "
             "distinct by the whole case")
     assumptions = [
         "float arithmetic is IEEE binary64 round-to-nearest-even in the normal range (modelled by roundF64; "
         "10**x for the two log10 parameters is taken from Python)",
-        "Python '{:.4e}'.format / float() are correctly rounded (modelled by fmtSci / parseSci)",
-        "torch.save/torch.load round-trip the optimizer state exactly; csv module quoting is not modelled "
-        "(user entries are checked on the implementation only)",
-        "update_for_epoch is called with epoch=None (consecutive epochs); explicit epoch arguments, "
-        "distributed reduction and best_is_train are outside the model",
+        "Python '{:.4e}'.format / float() are correctly rounded (modelled by fmtSci / decValue + rnd); repr(float) is "
+        "the shortest digit string that reads back, the closer neighbour first (modelled by reprText); the csv "
+        "module behaves as the state machine csvStep / the quoting rule csvField (all compared on every case)",
+        "the history file is opened with newline='' (tree with fixes/C15-csv-newline.diff)",
+        "torch.save/torch.load round-trip the optimizer state exactly",
+        "update_for_epoch is called for consecutive epochs (an explicit `epoch=` equals the inferred one); "
+        "re-doing an earlier epoch, distributed reduction, NaN/inf metrics are outside the model; `best_is_train`, "
+        "the checkpoint options and the presence of user entries are varied and must not change any decision",
     ]
-    quick_budget_s = 70
+    quick_budget_s = 80
+    thorough_budget_s = 600
+    exhaustive = {"quick": False, "thorough": False}
 
     def __init__(self):
         from collections import Counter
         self.stats = Counter()
-    thorough_budget_s = 600
-    exhaustive = {"quick": False, "thorough": False}
 
     # -------------------------------------------------------------- cases
+    @staticmethod
+    def variant(case, i, n):
+        """option variants the exhaustive block cycles through (none of them may change a decision)"""
+        v = i % 8
+        if v == 1:
+            case["explicit_epoch"] = [True] * n
+        elif v == 2:
+            case["best_is_train"] = [True] * n
+        elif v == 3:
+            case["csv"] = False
+        elif v == 4:
+            case["restart_sets"] = [list(range(1, n + 1))]
+            case["restart_modes"] = ["cache"]
+        elif v == 5:
+            case["load0"] = False
+        elif v == 6:
+            case["groups"] = [0.25, None]
+        elif v == 7:
+            case["entries"] = [["count", "int", "{}"]]
+            case["entry_values"] = [[i + e for e in range(n)]]
+        return case
+
     def cases(self, rng, tier):
         big = tier != "quick"
         # (a) hand-picked: the double-rounding witness and a few regression shapes
         yield {"stream": "decimal", "params": base_params(rlr_thr=0.5, rlr_factor=0.7), "opt_lr": 1.0,
                "groups": [None], "metrics": [[1.0, 1.0]] * 9, "restart_sets": [list(range(1, 9))],
                "state_dir": True}
-        # (b) exhaustive block without restarts: all val sequences of length 4 over three levels
+        # (b) exhaustive block without new-process restarts: all val sequences of length 4 over three levels
         levels = [1.0, 0.75, 0.5]
         L = 5 if big else 4
         thrs = (0.25, 0.5) if big else (0.25,)
+        i = 0
         for pat, burn, cool, thr, ne in itertools.product((1, 2), (0, 1), (0, 1), thrs, (None, 3)):
             p = base_params(es_thr=thr, es_pat=pat, es_burn=burn, rlr_thr=thr, rlr_pat=pat, rlr_cool=cool,
                             rlr_burn=burn, num_epochs=ne)
+            i += 3
             for seq in itertools.product(levels, repeat=L):
-                yield {"stream": "dyadic", "params": p, "opt_lr": 0.5, "groups": [None],
-                       "metrics": [[v + 0.25, v] for v in seq], "restart_sets": [], "state_dir": False}
+                i += 1
+                yield self.variant({"stream": "dyadic", "params": p, "opt_lr": 0.5, "groups": [None],
+                                    "metrics": [[v + 0.25, v] for v in seq], "restart_sets": [],
+                                    "state_dir": False}, i, L)
         # (c) every restart subset
         n_sub = 12 if not big else 60
         for i in range(n_sub):
@@ -182,22 +362,86 @@ class C15(PropertyCheck):
             c = self.random_case(rng, n, rng.choice(("dyadic", "decimal")))
             subs = list(all_subsets(n))
             c["restart_sets"] = subs
-            c["state_dir"] = True
+            if i % 3 == 2:
+                c["restart_modes"] = ["cache"] * len(subs)
+                c["state_dir"] = False
+            else:
+                c["state_dir"] = True
+                c["restart_opt_lr"] = rng.choice((None, 0.0625, 0.07))
             yield c
-        # (d) random configurations, a few random restart subsets each
+        # (d) the rate change at / next to epsilon (`old - new > eps` is strict)
+        for c in self.epsilon_cases(rng, 40 if not big else 300):
+            yield c
+        # (e) two-digit countdown columns
+        for c in self.wide_cases(rng, 8 if not big else 60):
+            yield c
+        # (e') user entries
+        for c in self.entries_cases(rng, 60 if not big else 600):
+            yield c
+        # (f) random configurations, a few random restart subsets each
         n_rand = 900 if not big else 12000
         for i in range(n_rand):
             stream = rng.choice(("dyadic", "dyadic", "decimal", "decimal", "offgrid"))
             n = rng.choice((1, 2, 3, 5, 6, 8, 10, 12)) if not big else rng.choice((1, 2, 4, 6, 8, 10, 14, 20, 30))
             c = self.random_case(rng, n, stream)
-            k = rng.choice((0, 1, 2, 3))
-            sets = []
-            for _ in range(k):
-                s = sorted({e for e in range(1, n + 1) if rng.random() < rng.choice((0.2, 0.5, 1.0))})
-                if s and s not in sets:
-                    sets.append(s)
-            c["restart_sets"] = sets
-            c["state_dir"] = bool(sets) or rng.random() < 0.3
+            self.random_restarts(rng, c, rng.choice((0, 1, 2, 3)))
+            yield c
+
+    def random_restarts(self, rng, c, k):
+        n = len(c["metrics"])
+        sets, modes = [], []
+        for _ in range(k):
+            s = sorted({e for e in range(1, n + 1) if rng.random() < rng.choice((0.2, 0.5, 1.0))})
+            if s and s not in sets:
+                sets.append(s)
+                modes.append(rng.choice(("new", "new", "cache")))
+        c["restart_sets"] = sets
+        if "cache" in modes:
+            c["restart_modes"] = modes
+        c["state_dir"] = ("new" in modes) or rng.random() < 0.3
+        if "new" in modes:
+            c["restart_opt_lr"] = rng.choice((None, 0.0625, 0.07))
+            if rng.random() < 0.3:
+                c["load_explicit"] = True
+        if c["state_dir"]:
+            ck = rng.choice(("default", "default", "default", "keep_all", "keep_all", "fixed_names"))
+            if ck != "default":
+                c["ckpt"] = ck
+        elif not sets and rng.random() < 0.25:
+            c["csv"] = False
+        return c
+
+    def epsilon_cases(self, rng, count):
+        out = 0
+        while out < count:
+            k = rng.choice((0, -1, -2, -3, -8))
+            factor = rng.choice((0.5, 0.75, 0.25, 0.9, 0.1, 0.3))
+            eps = 10 ** k
+            lr_b = eps / (1 - factor)                 # old - new is eps up to rounding
+            lr0 = lr_b * rng.choice((1, 1, 2, 4, 1 / factor, 1.0000000000000002, 0.9999999999999999))
+            n = rng.choice((3, 4, 6))
+            p = base_params(rlr_thr=rng.choice((0.25, 1.0)), rlr_factor=factor, rlr_pat=rng.choice((1, 1, 2)),
+                            rlr_cool=rng.choice((0, 0, 1)), log10_eps=k,
+                            log10_lr=rng.choice((None, None, k)))
+            c = {"stream": "epsilon", "params": p, "opt_lr": lr0, "groups": [None],
+                 "metrics": [[1.0, 1.0]] * n}
+            self.random_restarts(rng, c, rng.choice((0, 0, 1)))
+            out += 1
+            yield c
+
+    def wide_cases(self, rng, count):
+        for _ in range(count):
+            n = rng.choice((12, 14, 23))
+            big_one = lambda: rng.choice((10, 11, 12, 100))
+            p = base_params(es_thr=0.25, rlr_thr=0.25,
+                            es_pat=rng.choice((1, 2, big_one())), es_burn=rng.choice((0, big_one())),
+                            rlr_pat=rng.choice((1, 3, big_one())), rlr_cool=rng.choice((0, 2, big_one())),
+                            rlr_burn=rng.choice((0, big_one())),
+                            num_epochs=rng.choice((None, 9, 10, 99, 100, 1000)))
+            vals = [4.0 if e < 2 else 3.0 for e in range(n)]
+            c = {"stream": "wide", "params": p, "opt_lr": 1.0, "groups": [None],
+                 "metrics": [[v, v] for v in vals]}
+            self.random_restarts(rng, c, rng.choice((0, 1)))
             yield c
 
     def random_case(self, rng, n, stream):
@@ -221,12 +465,12 @@ class C15(PropertyCheck):
             log10_eps=rng.choice((-8, -8, -8, -1, -2, 0, -3.5)),
             log10_lr=rng.choice((None, None, None, -1, 0, -2, -0.5)))
         # validation metric: a walk on the grid that mostly plateaus (so countdowns run out) with
-        # occasional improvements/regressions, sometimes negative values
+        # occasional improvements/regressions, sometimes negative values; "diverge": gets worse
         start = rng.randrange(span // 2, span)
         if rng.random() < 0.15:
             start -= span
         vals, cur = [], start
-        mode = rng.choice(("plateau", "improve", "noisy", "const"))
+        mode = rng.choice(("plateau", "improve", "noisy", "const", "diverge"))
         for _ in range(n):
             r = rng.random()
             if mode == "const":
@@ -235,6 +479,8 @@ class C15(PropertyCheck):
                 step = rng.choice((0, 0, 0, 1, -1, -2, -30)) if r < 0.9 else -rng.randrange(1, 40)
             elif mode == "improve":
                 step = -rng.randrange(0, 30)
+            elif mode == "diverge":
+                step = rng.choice((0, 1, 2, 5, 30, 60, -1))
             else:
                 step = rng.randrange(-40, 30)
             cur += step
@@ -247,16 +493,50 @@ class C15(PropertyCheck):
             mets = [[(v + rng.randrange(0, 4)) * grid, v * grid] for v in vals]
         else:
             mets = [[round((v + rng.randrange(0, 30)) * grid, 2), round(v * grid, 2)] for v in vals]
-        ng = rng.choice((1, 1, 1, 2))
-        groups = [None] + [rng.choice((None, lr0 / 2, 0.25))] * (ng - 1)
-        return {"stream": stream, "params": p, "opt_lr": lr0, "groups": groups, "metrics": mets}
+        # optimizer: 1-3 param groups, each with the optimizer's default rate (None) or its own
+        ng = rng.choice((1, 1, 1, 2, 2, 3))
+        own = (lr0 / 2, 0.25, lr0 * 2, 0.07)
+        groups = [None if rng.random() < 0.5 else rng.choice(own) for _ in range(ng)]
+        c = {"stream": stream, "params": p, "opt_lr": lr0, "groups": groups, "metrics": mets}
+        r = rng.random()
+        if r < 0.15:
+            c["best_is_train"] = [True] * n
+        elif r < 0.3:
+            c["best_is_train"] = [rng.random() < 0.5 for _ in range(n)]
+        r = rng.random()
+        if r < 0.15:
+            c["explicit_epoch"] = [True] * n
+        elif r < 0.3:
+            c["explicit_epoch"] = [rng.random() < 0.5 for _ in range(n)]
+        if rng.random() < 0.15:
+            c["load0"] = False
+        if rng.random() < 0.2:
+            add_entries(rng, c, rng.randrange(1, 3))
+        return c
+
+    def entries_cases(self, rng, count):
+        """user entries of every modelled type/format, values with separators, quotes and line ends, restarts"""
+        for _ in range(count):
+            n = rng.randrange(1, 6)
+            p = base_params(rlr_thr=rng.choice((0.0, 0.25)), es_thr=rng.choice((0.0, 0.25)),
+                            es_pat=rng.choice((1, 3)))
+            c = {"stream": "entries", "params": p, "opt_lr": 0.5, "groups": [None],
+                 "metrics": [[1.0, rng.choice((1.0, 0.5))] for _ in range(n)]}
+            add_entries(rng, c, rng.randrange(1, 4))
+            self.random_restarts(rng, c, rng.choice((1, 1, 2)))
+            yield c
 
     # -------------------------------------------------------------- implementation
+    @staticmethod
+    def modes(case):
+        ms = case.get("restart_modes") or []
+        return [ms[i] if i < len(ms) else "new" for i in range(len(case.get("restart_sets", [])))]
+
     def run_impl(self, case):
         with warnings.catch_warnings():
             warnings.simplefilter("ignore")
             base = run_real(case, [])
-            rest = [run_real(case, r) for r in case.get("restart_sets", [])]
+            rest = [run_real(case, r, m) for r, m in zip(case.get("restart_sets", []), self.modes(case))]
         return {"base": base, "restarts": rest}
 
     # -------------------------------------------------------------- model
@@ -271,46 +551,76 @@ class C15(PropertyCheck):
             "init_lr": None if p["log10_lr"] is None else frac_str(fl(10 ** p["log10_lr"])),
             "opt_default": frac_str(fl(case["opt_lr"])),
         }
-        return {"op": "c15.run", "case": {
-            "rnd": "f64", "params": mp, "groups": groups,
-            "metrics": [[frac_str(fl(t)), frac_str(fl(v))] for t, v in case["metrics"]],
-            "restart_sets": case.get("restart_sets", [])}}
+        req = {"rnd": "f64", "params": mp, "groups": groups, "load0": bool(case.get("load0", True)),
+               "metrics": [[frac_str(fl(t)), frac_str(fl(v))] for t, v in case["metrics"]],
+               "restart_sets": case.get("restart_sets", [])}
+        if entries_modelled(case):
+            req["entries"] = [{"name": n, "typ": t, "fmt": fmt_code(f, t)} for (n, t, f) in case["entries"]]
+            req["entry_values"] = [[frac_str(v) if t == "float" else v for v in vals]
+                                   for (_, t, _), vals in zip(case["entries"], case["entry_values"])]
+        return {"op": "c15.run", "case": req}
 
     # -------------------------------------------------------------- correspondence
     @staticmethod
-    def _cmp_run(tag, a, b, out):
+    def _cmp_run(case, tag, a, b, out):
         if b.get("error"):
             out.append(f"{tag}: model raises {b['error']}, implementation does not")
             return
-        for k in ("cont", "cont_training", "lrs"):
+        for k in ("cont", "cont_training", "lrs", "cont_at"):
             if a[k] != b[k]:
                 i = next((i for i, (x, y) in enumerate(zip(a[k], b[k])) if x != y), None)
-                out.append(f"{tag}: {k} differs first at epoch {None if i is None else i + 1}: "
+                out.append(f"{tag}: {k} differs first at index {None if i is None else i + 1}: "
                            f"impl={a[k]} model={b[k]}")
-        for e, (ra, rb) in enumerate(zip(a["rows"], b["rows"]), 1):
+        if a["cont0"] != b["cont0"]:
+            out.append(f"{tag}: continue_training() before the first epoch: impl={a['cont0']} model={b['cont0']}")
+        for e, (ra, rb) in enumerate(zip([a["row0"]] + a["rows"], [b["row0"]] + b["rows"])):
             for k in ra:
                 if ra[k] != rb.get(k):
                     out.append(f"{tag}: get_info({e})[{k}] impl={ra[k]} model={rb.get(k)}")
         if len(a["rows"]) != len(b["rows"]):
             out.append(f"{tag}: {len(a['rows'])} rows vs model {len(b['rows'])}")
-        ca = a["csv"]
-        if a.get("entries") is not None:
-            ca = [r[:8] for r in ca]
-        if ca != b["csv"]:
-            i = next((i for i, (x, y) in enumerate(zip(ca, b["csv"])) if x != y), None)
-            out.append(f"{tag}: CSV text differs at line {i}: impl={ca[i] if i is not None and i < len(ca) else ca} "
-                       f"model={b['csv'][i] if i is not None else b['csv']}")
+        if case.get("csv", True):
+            ca = a["csv"]
+            if a.get("entries") is not None:
+                ca = [r[:8] for r in ca]
+            if ca != b["csv"]:
+                i = next((i for i, (x, y) in enumerate(zip(ca, b["csv"])) if x != y), None)
+                out.append(f"{tag}: CSV text differs at line {i}: impl={ca[i] if i is not None and i < len(ca) else ca} "
+                           f"model={b['csv'][i] if i is not None else b['csv']}")
+            # the whole file, byte for byte (header, quoting, line terminators, user entries)
+            if (not case.get("entries")) or entries_modelled(case):
+                if a["csv_text"] != b["csv_text"]:
+                    ta, tb = a["csv_text"] or "", b["csv_text"] or ""
+                    i = next((i for i, (x, y) in enumerate(zip(ta, tb)) if x != y), min(len(ta), len(tb)))
+                    out.append(f"{tag}: history file differs from the model's at character {i}: "
+                               f"impl={ta[max(0, i - 20):i + 20]!r} model={tb[max(0, i - 20):i + 20]!r}")
+        if entries_modelled(case):
+            if a["entries"] != b["entries"]:
+                out.append(f"{tag}: user entries returned by get_info: impl={a['entries']} model={b['entries']}")
+        if not b.get("text_ok", True):
+            out.append(f"{tag}: MODEL: re-reading the file text (readHist . fileText) differs from the "
+                       f"record-level restart")
 
     def compare(self, case, impl, model):
         if "error" in impl:
             return [f"implementation raised {impl['error']}: {impl.get('message')}"]
         out = []
-        self._cmp_run("uninterrupted", impl["base"], model["base"], out)
-        for rs, a, b in zip(case.get("restart_sets", []), impl["restarts"], model["restarts"]):
-            self._cmp_run(f"restart after {rs}", a, b, out)
+        self._cmp_run(case, "uninterrupted", impl["base"], model["base"], out)
+        for rs, m, a, b in zip(case.get("restart_sets", []), self.modes(case), impl["restarts"], model["restarts"]):
+            self._cmp_run(case, f"restart({m}) after {rs}", a, b, out)
         return out[:6]
 
     # -------------------------------------------------------------- the property on the implementation
+    @staticmethod
+    def initial_groups(case):
+        """the optimizer's rates before the first epoch, as the rules see them"""
+        p = case["params"]
+        init_lr = None if p["log10_lr"] is None else 10 ** p["log10_lr"]
+        own = [float(case["opt_lr"] if g is None else g) for g in case["groups"]]
+        if init_lr is not None and case.get("load0", True):
+            return [init_lr] * len(own)
+        return own
+
     def predicate(self, case, impl, model):
         if "error" in impl:
             return [(f"controller raised {impl['error']}: {impl.get('message')}", None)]
@@ -321,6 +631,7 @@ class C15(PropertyCheck):
             st["rounding_sensitive_cases"] += bool(fl.get("rounding_sensitive"))
             st["metrics_on_printed_grid_cases"] += bool(fl.get("metrics_on_grid"))
             st["restarted_runs"] += len(case.get("restart_sets", []))
+            st["restarted_runs_update_cache"] += sum(1 for m in self.modes(case) if m == "cache")
             st["epochs_checked_against_rules"] += sum(1 for x in model["spec"]["live"] if x)
             st["es_stop_epochs"] += sum(1 for x, l in zip(model["spec"]["es_stop"], model["spec"]["live"]) if x and l)
             st["rate_fired_epochs"] += sum(model["spec"]["fire"])
@@ -329,6 +640,8 @@ class C15(PropertyCheck):
         p = case["params"]
         base = impl["base"]
         n = len(case["metrics"])
+        runs = [("uninterrupted", base)] + [(f"restart({m}) after {rs}", r) for rs, m, r in
+                                            zip(case.get("restart_sets", []), self.modes(case), impl["restarts"])]
         if model is not None:
             spec = model["spec"]
             # --- stop decisions (rules apply until early stopping has told the loop to stop)
@@ -336,38 +649,58 @@ class C15(PropertyCheck):
                 if spec["live"][i] and base["cont"][i] != (not spec["stop"][i]):
                     fails.append((f"epoch {i + 1}: update_for_epoch returned {base['cont'][i]} but the rules say "
                                   f"stop={spec['stop'][i]} (es_stop={spec['es_stop'][i]}, "
-                                  f"budget={spec['budget_stop'][i]})", None))
+                                  f"budget={spec['budget_stop'][i]})", "C15.stop"))
                     break
             # --- learning rate: multiplied exactly when the criterion fires and the change matters
-            init_lr = None if p["log10_lr"] is None else 10 ** p["log10_lr"]
-            groups = [frac_str(init_lr if init_lr is not None else (case["opt_lr"] if g is None else g))
-                      for g in case["groups"]]
+            groups = [frac_str(g) for g in self.initial_groups(case)]
+            if base["lrs0"] != groups:
+                fails.append((f"before the first epoch: optimizer rates {base['lrs0']}, expected {groups}", "C15.lr0"))
             for i in range(n):
                 if spec["reduce"][i]:
                     groups = [spec["lr"][i]] * len(groups)
                 if base["lrs"][i] != groups:
                     fails.append((f"epoch {i + 1}: optimizer rates {base['lrs'][i]} but the rules give {groups} "
-                                  f"(fire={spec['fire'][i]}, reduce={spec['reduce'][i]})", None))
+                                  f"(fire={spec['fire'][i]}, reduce={spec['reduce'][i]})", "C15.lr.optimizer"))
                     break
                 if base["rows"][i]["lr"] != spec["lr"][i]:
                     fails.append((f"epoch {i + 1}: recorded lr {base['rows'][i]['lr']} but the rules give "
-                                  f"{spec['lr'][i]}", None))
+                                  f"{spec['lr'][i]}", "C15.lr.recorded"))
                     break
         # --- continue_training agrees with the returned decision; history is complete
-        for tag, run in [("uninterrupted", base)] + [(f"restart after {rs}", r) for rs, r in
-                                                     zip(case.get("restart_sets", []), impl["restarts"])]:
+        for tag, run in runs:
             if run["cont"] != run["cont_training"]:
-                fails.append((f"{tag}: continue_training() {run['cont_training']} != returned {run['cont']}", None))
-            if run["last_epoch"] != n or len(run["csv"]) != n + 1:
+                fails.append((f"{tag}: continue_training() {run['cont_training']} != returned {run['cont']}",
+                              "C15.continue"))
+            # continue_training(e) for a recorded epoch e = what update_for_epoch returned at e; training
+            # may start on a fresh controller
+            if run["cont_at"] != [True] + run["cont"] or run["cont0"] is not True:
+                fails.append((f"{tag}: continue_training(e) for e=0..{n} is {run['cont_at']} (before the first epoch: "
+                              f"{run['cont0']}), update_for_epoch returned {run['cont']}", "C15.continue_at"))
+            if run["last_epoch"] != n or (case.get("csv", True) and len(run["csv"]) != n + 1):
                 fails.append((f"{tag}: history has {len(run['csv']) - 1} rows / last epoch {run['last_epoch']} "
-                              f"after {n} epochs", None))
+                              f"after {n} epochs", "C15.history"))
             for e, row in enumerate(run["rows"], 1):
                 if row["epoch"] != e:
-                    fails.append((f"{tag}: get_info({e})['epoch'] = {row['epoch']}", None))
+                    fails.append((f"{tag}: get_info({e})['epoch'] = {row['epoch']}", "C15.history"))
                 for k, col in (("train_met", 0), ("val_met", 1)):
                     want = float(case["metrics"][e - 1][col])
                     if tag == "uninterrupted" and row[k] != frac_str(want):
-                        fails.append((f"{tag}: get_info({e})[{k}] = {row[k]}, given {want}", None))
+                        fails.append((f"{tag}: get_info({e})[{k}] = {row[k]}, given {want}", "C15.history"))
+            # --- user entries come back with the declared type and the stored value (a format that
+            # drops digits: the value the format dictates, once the row has been re-read)
+            rs_here = [] if tag == "uninterrupted" else case["restart_sets"][[t for t, _ in runs].index(tag) - 1]
+            last_reread = max(rs_here, default=0)
+            for k, (name, typ, fmt) in enumerate(case.get("entries", [])):
+                for e in range(1, n + 1):
+                    v = case["entry_values"][k][e - 1]
+                    want = canon_entry(reread(typ, fmt, v) if (fmt in LOSSY and e <= last_reread) else v)
+                    got = run["entries"][e - 1][k]
+                    if got != want:
+                        fails.append((f"{tag}: entry {name!r} ({typ}, {fmt!r}) of epoch {e} is {got}, stored {want}",
+                                      "C15.entries"))
+                        break
+                if run["entries0"][k] is not None:
+                    fails.append((f"{tag}: entry {name!r} of the dummy epoch 0 is {run['entries0'][k]!r}", "C15.entries"))
         # --- restart clause (metrics representable at the printed precision)
         on_grid = all(float("%.4e" % float(x)) == float(x) for m in case["metrics"] for x in m)
         if on_grid:
@@ -380,10 +713,10 @@ class C15(PropertyCheck):
     def _restart_diff(self, case, rs, base, run, model):
         """None if the restarted run reproduces the uninterrupted one; else (what, signature)."""
         hard, soft = [], []
-        for k in ("cont", "cont_training"):
+        for k in ("cont", "cont_training", "cont_at", "cont0", "lrs0"):
             if base[k] != run[k]:
                 hard.append(f"{k}: {run[k]} vs uninterrupted {base[k]}")
-        for e, (a, b) in enumerate(zip(base["rows"], run["rows"]), 1):
+        for e, (a, b) in enumerate(zip([base["row0"]] + base["rows"], [run["row0"]] + run["rows"])):
             for k in a:
                 if k == "lr":
                     if not close(a[k], b[k]):
@@ -394,6 +727,10 @@ class C15(PropertyCheck):
             if len(a) != len(b) or any(not close(x, y) for x, y in zip(a, b)):
                 soft.append(f"optimizer lr after epoch {e}: {[fmt_frac(x) for x in b]} vs "
                             f"{[fmt_frac(x) for x in a]}")
+        lossy = [k for k, (_, _, f) in enumerate(case.get("entries", [])) if f in LOSSY]
+        strip = lambda ents: None if ents is None else [[v for k, v in enumerate(r) if k not in lossy] for r in ents]
+        if strip(base.get("entries")) != strip(run.get("entries")):
+            hard.append("user entries differ")
         if len(base["csv"]) != len(run["csv"]):
             hard.append("different number of CSV rows")
         for i, (a, b) in enumerate(zip(base["csv"], run["csv"])):
@@ -408,9 +745,9 @@ class C15(PropertyCheck):
         what = (f"restart after epochs {rs} does not reproduce the uninterrupted run: " +
                 "; ".join((hard + soft)[:4]))
         if hard:
-            return (what, None)
+            return (what, "C15.restart")
         # only learning-rate values differ: is it exactly "the rate was re-read at 5 significant digits"?
-        sig = SIG if self._is_double_rounding(case, rs, run, model) else None
+        sig = SIG if self._is_double_rounding(case, rs, run, model) else "C15.restart.lr"
         return (what, sig)
 
     def _is_double_rounding(self, case, rs, run, model):
@@ -423,8 +760,7 @@ class C15(PropertyCheck):
         factor, eps = float(p["rlr_factor"]), 10 ** p["log10_eps"]
         init_lr = None if p["log10_lr"] is None else 10 ** p["log10_lr"]
         lr = init_lr if init_lr is not None else float(case["opt_lr"])
-        groups = [init_lr if init_lr is not None else float(case["opt_lr"] if g is None else g)
-                  for g in case["groups"]]
+        groups = self.initial_groups(case)
         hist_lr = []
         for e in range(1, len(case["metrics"]) + 1):
             if spec["fire"][e - 1]:
@@ -479,6 +815,24 @@ class C15(PropertyCheck):
              f"len={min(len(case['metrics']), 9)}{'+' if len(case['metrics']) > 9 else ''}",
              f"restart_sets={min(len(case.get('restart_sets', [])), 4)}{'+' if len(case.get('restart_sets', [])) > 4 else ''}",
              f"groups={len(case['groups'])}", f"log10_lr={'set' if p['log10_lr'] is not None else 'none'}"]
+        t += [f"load0={case.get('load0', True)}", f"csv={case.get('csv', True)}", f"ckpt={case.get('ckpt', 'default')}",
+              f"state_dir={bool(case.get('state_dir', True))}",
+              "best_is_train=" + ("never" if not any(case.get("best_is_train") or []) else
+                                  "always" if all(case["best_is_train"]) else "mixed"),
+              "explicit_epoch=" + ("never" if not any(case.get("explicit_epoch") or []) else
+                                   "always" if all(case["explicit_epoch"]) else "mixed"),
+              f"entries={len(case.get('entries', []))}",
+              "own_rate_groups=" + str(sum(1 for g in case["groups"] if g is not None)),
+              f"log10_eps={p['log10_eps']}", f"rlr_factor={p['rlr_factor']}"]
+        for m in set(self.modes(case)):
+            t.append(f"restart_mode={m}")
+        if case.get("restart_opt_lr") is not None:
+            t.append("restart_optimizer_built_with_other_rate")
+        if case.get("load_explicit"):
+            t.append("restart_load_explicit_epoch")
+        vs = [m[1] for m in case["metrics"]]
+        if any(b > a for a, b in zip(vs, vs[1:])):
+            t.append("val_metric_increases")
         if "error" not in impl:
             rows = impl["base"]["rows"]
             if any(r["es_patience_cd"] == 0 for r in rows) and p["es_thr"]:
@@ -495,17 +849,28 @@ class C15(PropertyCheck):
         n = len(case["metrics"])
         rsets = case.get("restart_sets", [])
         if len(rsets) > 1:
-            for r in rsets:
-                c = dict(case); c["restart_sets"] = [r]; yield c
+            for r, m in zip(rsets, self.modes(case)):
+                c = dict(case); c["restart_sets"] = [r]
+                if "restart_modes" in case:
+                    c["restart_modes"] = [m]
+                yield c
+        def cut(c, sl, shift):
+            c["metrics"] = case["metrics"][sl]
+            for k in ("best_is_train", "explicit_epoch"):
+                if case.get(k):
+                    c[k] = case[k][sl]
+            if case.get("entry_values"):
+                c["entry_values"] = [v[sl] for v in case["entry_values"]]
+            keep = [(sorted({e - shift for e in r if 1 <= e - shift <= n - 1}), m)
+                    for r, m in zip(rsets, self.modes(case))]
+            keep = [(r, m) for r, m in keep if r]
+            c["restart_sets"] = [r for r, _ in keep]
+            if "restart_modes" in case:
+                c["restart_modes"] = [m for _, m in keep]
+            return c
         if n > 1:
-            c = dict(case); c["metrics"] = case["metrics"][:-1]
-            c["restart_sets"] = [[e for e in r if e < n] for r in rsets]
-            c["restart_sets"] = [r for r in c["restart_sets"] if r]
-            yield c
-            c = dict(case); c["metrics"] = case["metrics"][1:]
-            c["restart_sets"] = [[e - 1 for e in r if e > 1] for r in rsets]
-            c["restart_sets"] = [r for r in c["restart_sets"] if r]
-            yield c
+            yield cut(dict(case), slice(0, n - 1), 0)
+            yield cut(dict(case), slice(1, n), 1)
         for r_i, r in enumerate(rsets):
             for e in r:
                 if len(r) > 1:
@@ -521,6 +886,16 @@ class C15(PropertyCheck):
                 c = dict(case); c["params"] = dict(p, **{k: v}); yield c
         if len(case["groups"]) > 1:
             c = dict(case); c["groups"] = case["groups"][:1]; yield c
+            c = dict(case); c["groups"] = case["groups"][1:]; yield c
+        for k in ("best_is_train", "explicit_epoch", "load0", "csv", "ckpt", "restart_opt_lr", "load_explicit",
+                  "restart_modes"):
+            if k in case and not (k == "csv" and case.get("restart_sets")):
+                c = dict(case); del c[k]
+                if k == "restart_modes":
+                    c["state_dir"] = True
+                yield c
+        if case.get("entries"):
+            c = dict(case); del c["entries"]; c.pop("entry_values", None); yield c
         # flatten the training metric (never used in decisions)
         if any(m[0] != 1.0 for m in case["metrics"]):
             c = dict(case); c["metrics"] = [[1.0, m[1]] for m in case["metrics"]]; yield c
